@@ -22,6 +22,23 @@ def prog(body):
 
 
 KEY = "    let mut key = ThreadKey::get().unwrap();\n"
+SENDRW = """    struct SendRw(std::sync::atomic::AtomicIsize);
+    unsafe impl lock_api::RawRwLock for SendRw {
+        const INIT: Self = SendRw(std::sync::atomic::AtomicIsize::new(0));
+        type GuardMarker = lock_api::GuardSend;
+        fn lock_shared(&self) { while !self.try_lock_shared() {} }
+        fn try_lock_shared(&self) -> bool {
+            let v = self.0.load(std::sync::atomic::Ordering::SeqCst);
+            v >= 0 && self.0.compare_exchange(v, v + 1, std::sync::atomic::Ordering::SeqCst, std::sync::atomic::Ordering::SeqCst).is_ok()
+        }
+        unsafe fn unlock_shared(&self) { self.0.fetch_sub(1, std::sync::atomic::Ordering::SeqCst); }
+        fn lock_exclusive(&self) { while !self.try_lock_exclusive() {} }
+        fn try_lock_exclusive(&self) -> bool {
+            self.0.compare_exchange(0, -1, std::sync::atomic::Ordering::SeqCst, std::sync::atomic::Ordering::SeqCst).is_ok()
+        }
+        unsafe fn unlock_exclusive(&self) { self.0.store(0, std::sync::atomic::Ordering::SeqCst); }
+    }
+"""
 SENDRAW = """    struct SendRaw(std::sync::atomic::AtomicBool);
     unsafe impl lock_api::RawMutex for SendRaw {
         const INIT: Self = SendRaw(std::sync::atomic::AtomicBool::new(false));
@@ -99,6 +116,26 @@ ITEMS = [
      SENDRAW + KEY + "    let c: &'static LockCollection<(happylock::mutex::Mutex<i32, SendRaw>,)> = Box::leak(Box::new(LockCollection::new((happylock::mutex::Mutex::new(1),))));\n    let g = c.lock(key);\n    std::thread::spawn(move || drop(g));",
      SENDRAW + KEY + "    let c: &'static LockCollection<(happylock::mutex::Mutex<i32, SendRaw>,)> = Box::leak(Box::new(LockCollection::new((happylock::mutex::Mutex::new(1),))));\n    let g = c.lock(key);\n    drop(g);",
      'negb (impl_auto auto_rules (mkrf true true true true) MSend (TCon "LockGuard" (TCon "MutexRef" (TPay true true))))', ["E0277"], None),
+    ("read_guard_send_guardsend_raw", "C14", "key-holding read guard of an RwLock over a raw lock whose guards may be sent, moved to another thread",
+     SENDRW + KEY + "    let l: &'static happylock::rwlock::RwLock<i32, SendRw> = Box::leak(Box::new(happylock::rwlock::RwLock::new(1)));\n    let g = l.read(key);\n    std::thread::spawn(move || drop(g));",
+     SENDRW + KEY + "    let l: &'static happylock::rwlock::RwLock<i32, SendRw> = Box::leak(Box::new(happylock::rwlock::RwLock::new(1)));\n    let g = l.read(key);\n    drop(g);",
+     'negb (impl_auto auto_rules (mkrf true true true true) MSend (TCon "RwLockReadGuard" (TPay true true)))', ["E0277"], None),
+    ("write_guard_send_guardsend_raw", "C14", "key-holding write guard of such an RwLock moved to another thread",
+     SENDRW + KEY + "    let l: &'static happylock::rwlock::RwLock<i32, SendRw> = Box::leak(Box::new(happylock::rwlock::RwLock::new(1)));\n    let g = l.write(key);\n    std::thread::spawn(move || drop(g));",
+     SENDRW + KEY + "    let l: &'static happylock::rwlock::RwLock<i32, SendRw> = Box::leak(Box::new(happylock::rwlock::RwLock::new(1)));\n    let g = l.write(key);\n    drop(g);",
+     'negb (impl_auto auto_rules (mkrf true true true true) MSend (TCon "RwLockWriteGuard" (TPay true true)))', ["E0277"], None),
+    ("collection_guard_field_moved_out", "C14", "moving the holds out of a collection guard through its field (the key is dropped, the holds live on)",
+     KEY + "    let c = LockCollection::new((Mutex::new(1), Mutex::new(2)));\n    let holds = c.lock(key).guard;\n    let k2 = ThreadKey::get();",
+     KEY + "    let c = LockCollection::new((Mutex::new(1), Mutex::new(2)));\n    let g = c.lock(key);\n    drop(g);\n    let k2 = ThreadKey::get();",
+     'is_nil_str public_fields', ["E0616"], None),
+    ("hold_ref_cloned", "C14", "duplicating the keyless hold inside a collection read guard, then unlocking the guard: the key is back while the copy still holds",
+     KEY + "    let data = (RwLock::new(1), RwLock::new(2));\n    let locks = LockCollection::new_ref(&data);\n    let guard = locks.read(key);\n"
+           "    let held: happylock::rwlock::RwLockReadRef<'_, i32, _> = Clone::clone(&guard.0);\n"
+           "    let key = LockCollection::<&(RwLock<i32>, RwLock<i32>)>::unlock_read(guard);\n    drop(key);\n    drop(held);",
+     KEY + "    let data = (RwLock::new(1), RwLock::new(2));\n    let locks = LockCollection::new_ref(&data);\n    let guard = locks.read(key);\n"
+           "    let v: i32 = Clone::clone(&*guard.0);\n"
+           "    let key = LockCollection::<&(RwLock<i32>, RwLock<i32>)>::unlock_read(guard);\n    drop(key);",
+     'negb (has_impl "RwLockReadRef" "Clone")', ["E0277"], None),
     ("collection_guard_send", "C14", "collection guard moved to another thread",
      KEY + "    let c: &'static LockCollection<(Mutex<i32>,)> = Box::leak(Box::new(LockCollection::new((Mutex::new(1),))));\n    let g = c.lock(key);\n    std::thread::spawn(move || drop(g));",
      KEY + "    let c: &'static LockCollection<(Mutex<i32>,)> = Box::leak(Box::new(LockCollection::new((Mutex::new(1),))));\n    let g = c.lock(key);\n    drop(g);",
